@@ -179,6 +179,8 @@ func genAppHeaders(r *rand.Rand, prefix string, n int) http.Header {
 }
 
 type ScenOpts struct {
+	Methods      []*MethodInfo // schema to draw methods from (default: Kitchen)
+	Schema       string
 	Timeouts     bool // add a (valid) timeout header in the client's protocol
 	Variety      bool // backend scripts: bare HTTP errors, declared lengths, compressed end frames, empty responses
 	ForceForm    *ClientForm
@@ -229,8 +231,11 @@ func genScenario(r *rand.Rand, so ScenOpts, marker string) *Scenario {
 	kitchen()
 	for {
 		cfg := genConfig(r)
+		cfg.Schema = so.Schema
 		var m *MethodInfo
-		if so.ForceMethod != "" {
+		if so.Methods != nil {
+			m = pick(r, so.Methods)
+		} else if so.ForceMethod != "" {
 			m = kitchenInfo[so.ForceMethod]
 		} else {
 			m = pick(r, kitchenList)
